@@ -12,7 +12,7 @@ import numpy as np
 import jax
 import jax.numpy as jnp
 
-from sim import world, progs, ref, gfi, otree
+from sim import world, progs, ref, gfi, otree, bare
 from sim.gfi import V
 from sim.scripted import run_scripted
 from genjax import pjax as gpjax
@@ -22,10 +22,34 @@ DISCRETE = ["flip", "bernoulli", "categorical"]
 
 
 def gen_case(rng, tier):
+    if rng.random() < 0.12:
+        # a bare Distribution / Vmap-of-Distribution used directly through the GFI (sim/bare.py)
+        return bare.gen_case(rng, tier, "simulate")
     tree = rng.random() < 0.25
     if tree:
         c = gfi.gen_model_case(rng, tier, depth=rng.choice([0, 1, 1]), dists=DISCRETE, max_blocks=2)
         c["ops"] = [{"op": "tree"}]
+        return c
+    if rng.random() < 0.2:
+        # every site from one location-scale family: noise shared by any two positions of the program
+        # (statements, scan steps, lanes, sub-calls) is then visible in the standardised draws
+        fam = rng.choice([["normal", "normal_s"], ["laplace"], ["uniform"], ["exponential"]])
+        site = lambda a: {"k": "site", "a": a, "d": rng.choice(fam), "kw": False}
+        blocks = []
+        for i in range(rng.randint(3, 5)):
+            a = "abcdefgh"[i]
+            r = rng.random()
+            if r < 0.35:
+                blocks.append({"k": "scan", "a": a, "n": rng.randint(1, 3), "m": {"blocks": [site("ab"[j]) for j in range(rng.randint(1, 2))]}})
+            elif r < 0.7:
+                blocks.append(site(a))
+            elif r < 0.85:
+                blocks.append({"k": "vsite", "a": a, "d": rng.choice(fam), "n": rng.randint(2, 3), "mode": rng.choice(["all", "repeat"])})
+            else:
+                blocks.append({"k": "call", "a": a, "m": {"blocks": [site("ab"[j]) for j in range(rng.randint(1, 2))]}})
+        c = {"model": {"blocks": blocks}, "h": round(rng.uniform(-1.0, 1.0), 3)}
+        c["ops"] = [{"op": "simulate", "cfg": rng.choice(["eager", "jit", "vmap"]), "key": rng.randint(0, 2**30)}
+                    for _ in range(rng.randint(1, 2))]
         return c
     c = gfi.gen_model_case(rng, tier)
     ops = []
@@ -54,6 +78,8 @@ def gen_case(rng, tier):
 
 
 def run_case(case):
+    if "bare" in case:
+        return bare.run_case(case)
     model, h = case["model"], case["h"]
     gf = progs.build(model)
     viol = []
@@ -90,6 +116,21 @@ def run_case(case):
                         viol.append(V("incoherent", "args_round_trip", f"get_args()={a!r}", op="simulate"))
                     if any(not s["live"] for s in r.sites) or r.hidden_lanes:
                         probes["cond_dead_branch"] += 1
+                    # choices follow the *joint* density: no two choices of one seeded run are driven by the
+                    # same noise (suspect pairs are confirmed under two fresh keys before being reported)
+                    sus = gfi.shared_noise_pairs(r.sites)
+                    for extra in (1, 2):
+                        if not sus:
+                            break
+                        probes["shared_noise_suspect"] = probes.get("shared_noise_suspect", 0) + 1
+                        tr_x = gfi.execute(op["cfg"], gf.simulate, op["key"] + extra, h)
+                        sus &= gfi.shared_noise_pairs(ref.run(model, h, gfi.np_choices(tr_x)).sites)
+                    if sus:
+                        a, b = sorted(sus)[0]
+                        viol.append(V("shared_randomness", "choices_follow_the_joint_density",
+                                      f"simulate/{op['cfg']}: the choices at {'/'.join(a[0])}{list(a[1])} and {'/'.join(b[0])}{list(b[1])} "
+                                      "are driven by the same noise under three different keys (perfectly dependent draws)",
+                                      op="simulate", cfg=op["cfg"]))
             elif kind == "simulate_scripted":
                 script = gfi.RefScript(op["sseed"])
                 tr, log = run_scripted(gf.simulate, script, h)
@@ -227,6 +268,9 @@ def run_tree(gf, model, h, max_leaves=2048):
 
 
 def shrink(case):
+    if "bare" in case:
+        yield from bare.shrink(case)
+        return
     ops = case["ops"]
     for i in range(len(ops)):
         if len(ops) > 1:
